@@ -65,7 +65,13 @@ class Exec:
             if k == "int": return Sym(BOOL, v.z != 0)
             if k == "dec": return Sym(BOOL, z3.Or(z3.Not(dec_fin(v.z)), dec_val(v.z) != 0))
             if k == "str": return Sym(BOOL, z3.Length(v.z) > 0)
-            if k == "opt": return Sym(BOOL, z3.Not(sort_of(v.ty).is_none(v.z)))   # payload truthiness ignored (objects)
+            if k == "opt":
+                srt = sort_of(v.ty); notnone = z3.Not(srt.is_none(v.z)); pk = v.ty.args[0].kind
+                if pk == "int": return Sym(BOOL, z3.And(notnone, srt.val(v.z) != 0))
+                if pk == "str": return Sym(BOOL, z3.And(notnone, z3.Length(srt.val(v.z)) > 0))
+                if pk == "bool": return Sym(BOOL, z3.And(notnone, srt.val(v.z)))
+                if pk == "dec": return Sym(BOOL, z3.And(notnone, z3.Or(z3.Not(dec_fin(srt.val(v.z))), dec_val(srt.val(v.z)) != 0)))
+                return Sym(BOOL, notnone)        # objects / abstract values: truthy unless None
             if k == "seqlist": return Sym(BOOL, z3.Length(v.z) > 0)
             if k == "tuple": return len(v.ty.args) > 0
             raise Unsupported("truth of %r" % v)
@@ -1003,9 +1009,20 @@ class Exec:
 
     # ---- loops with invariants
     def loop_spec(self, node):
-        return self.loop_specs.get((self.current_fn, self.loop_ordinal(node)))
+        key = self._loop_key(node)
+        return self.loop_specs.get((self.current_fn, key))
+    def _loop_key(self, node):
+        """the contract's number for this loop: by matching source text of the iterable / condition where the spec names one, else by position"""
+        text = ast.unparse(node.iter if isinstance(node, ast.For) else node.test)
+        for (fn, k), spec in self.loop_specs.items():
+            if fn == self.current_fn and getattr(spec, "match", None) == text: return k
+        pos = self._loop_index.get(id(node))
+        spec = self.loop_specs.get((self.current_fn, pos))
+        if spec is not None and getattr(spec, "match", None) not in (None, text): return ("unmatched", pos)
+        return pos
     def loop_ordinal(self, node):
-        return self._loop_index.get(id(node))
+        k = self._loop_key(node)
+        return k if isinstance(k, int) else self._loop_index.get(id(node))
 
     def st_While(self, node, st):
         spec = self.loop_spec(node)
